@@ -144,10 +144,12 @@ public:
   String& prepend(const String& str)
   {
     String copy(*this);
-    usize newLen = str.data->len + copy.data->len;
+    const char* strData = str.data->str; // str might be *this, whose data is replaced by detach()
+    usize strLen = str.data->len;
+    usize newLen = strLen + copy.data->len;
     detach(0, newLen);
-    Memory::copy((char*)data->str, str.data->str, str.data->len * sizeof(char));
-    Memory::copy((char*)data->str + str.data->len, copy.data->str, copy.data->len * sizeof(char));
+    Memory::copy((char*)data->str, strData, strLen * sizeof(char));
+    Memory::copy((char*)data->str + strLen, copy.data->str, copy.data->len * sizeof(char));
     ((char*)data->str)[data->len = newLen] = '\0';
     return *this;
   }
